@@ -757,6 +757,10 @@ class Prop:
     def stop(self, ctx):
         """a known finding does not end the exploration; anything else does"""
         unknown = [f for f in ctx.oracle_failures if self.signature(f[0], f[1], f[2]) not in self.known_sigs()]
+        if ctx.search_mode:
+            # an obligation or the translation broke: the model may be stale, so its disagreements do not end the
+            # search for an input on which the implementation itself violates the property
+            return len(unknown) >= 1 or len(ctx.mismatches) >= 40
         return len(unknown) >= 1 or len(ctx.mismatches) >= 2
 
     def signature(self, case, kind, desc):
@@ -861,6 +865,10 @@ class Prop:
         ctx.oracle_failures.append((Case(side.engine, small, origin), kind, f[0][1] if f else fail[1]))
 
     def report_mismatch(self, ctx, side, exe, sc, mm, origin):
+        if ctx.search_mode and len(ctx.mismatches) >= 2:
+            ctx.mismatches.append((Case(side.engine, sc, origin), mm))   # enough minimised examples; keep searching
+            return
+
         def still(ls):
             c = Case(side.engine, ls)
             b, _ = ctx.run_impl(exe, c, timeout=120)
